@@ -8,6 +8,20 @@ from .. import framework
 from . import explore
 
 
+LINE_OPTS = dict(kinds=("P",), lines="*", horizon=400_000)
+
+
+def line_plan(progs, bound=1, **extra):
+    """Plan entries exploring `progs` at source-line granularity (every line executed by a
+    parent-process thread in loky code is a point where another parent thread may be run)."""
+    seen, out = set(), []
+    for p in progs:
+        if p["name"] not in seen:
+            seen.add(p["name"])
+            out.append((p, bound, dict(LINE_OPTS, **extra)))
+    return out
+
+
 def run(pid, tier, plan, oracle_name, monitors_name=None, assumptions=(), extra_cov=None,
         replay=None, conformance=None, extra_violations=(), post_summary=None):
     rep = framework.Report(pid, tier, "model_checking")
@@ -17,7 +31,8 @@ def run(pid, tier, plan, oracle_name, monitors_name=None, assumptions=(), extra_
         "no runnable thread is starved for a long (>1 s) timed wait: such waits expire only "
         "at quiescence",
         "schedules complete up to the stated deviation bound per program; decision points are "
-        "kernel operations and operations on the executor's shared containers",
+        "kernel operations and operations on the executor's shared containers; for the programs "
+        "marked '+lines' also every source line of loky executed by a parent-process thread",
     ]
     # bind the modelled kernel to the real primitives in this very run (depth-3 differential
     # conformance, ~1 s); a disagreement means the model is wrong: internal error, never a pass
@@ -59,7 +74,8 @@ def run(pid, tier, plan, oracle_name, monitors_name=None, assumptions=(), extra_
                 continue
             s = explore.explore(pool, prog, bound, opts, oracle_name)
             per_prog.append(dict(program=prog["name"], bound_completed=bound,
-                                 policy=opts.get("starve") or "fifo",
+                                 policy=(opts.get("starve") or "fifo")
+                                 + ("+lines" if opts.get("lines") else ""),
                                  kinds="".join(sorted(opts.get("kinds", "PTK"))),
                                  executions=s.executions, root_decisions=s.root_decisions,
                                  outcome_classes=len(s.classes),
